@@ -21,6 +21,8 @@ pub struct World {
     pub task_info: Map<int, LoopInfo>, // what each spawned actor task runs
     pub cells: Map<int, bool>,         // take-once cells holding a runtime join handle: true = still there, false = taken
     pub closed: Set<int>,              // mailbox queues whose receiver is gone (shared: a closed queue stays closed)
+    pub aborted: Set<int>,             // timer tasks whose abort handle has been used
+    pub bg: Seq<int>,                  // background futures (timer tasks) spawned by this task, in order
     pub last_pid: int,                 // ghost registers: the payload / oneshot slot most recently created by this task
     pub last_slot: int,
 }
@@ -46,6 +48,7 @@ pub broadcast group world_axioms { shared_moved_refl, shared_moved_trans, shared
 pub open spec fn others_ran(pre: &World, post: &World) -> bool {
     post.lc == pre.lc && post.trace == pre.trace && post.cells =~= pre.cells && shared_moved(sh(pre), sh(post))
 }
+pub fn vdrop<T>(t: T) { }      // `drop(e)` (rule D5)
 #[verifier::external_body]
 pub fn vpanic<T>() -> (r: T) ensures false { unimplemented!() }
 
